@@ -131,6 +131,9 @@ def _resolve(year, request, given, seed_key):
     return res, ans
 
 
+DECLARED_1040 = {}
+
+
 def c16(tier):
     import itertools
     import random
@@ -224,6 +227,19 @@ def c16(tier):
             for d in deltas:
                 res2, _a = _resolve(year, request, bump("w-2:0.box_2", d), "h%s" % sc["sid"])
                 add_pair("withheld", int(round(d * 100)), res2, {"input": "w-2:0.box_2", "delta": d})
+        # every other place where federal income tax withheld is entered: box 4 of the 1099 forms, other withholding
+        # (other withholding is part of line 25c on every return: if the return did not even ask for it, it counts as 0 before)
+        declared = DECLARED_1040.setdefault(year, set(x.base_name() for c in __import__("habutax.forms", fromlist=["x"]).available_forms[year] if c.form_name == "1040" for x in c().inputs()))
+        for name in sorted(set(k3 for k3 in given if re.match(r"^1099-(r|div|int|g):\d+\.box_4$", k3)) |
+                           ({"1040.other_federal_withholding"} if "other_federal_withholding" in declared else set())):
+            for d in deltas[:2]:
+                try:
+                    g2 = dict(given)
+                    g2[name] = "%.2f" % (float(given.get(name) or 0) + d)
+                except ValueError:
+                    continue
+                res2, _a = _resolve(year, request, g2, "o%s" % sc["sid"])
+                add_pair("withheld", int(round(d * 100)), res2, {"input": name, "delta": d})
         # an increment that makes two copies carry exactly the same amount (aggregations must not care)
         for box, kind in (("box_2", "withheld"), ("box_1", "wages")):
             a0, a1 = given.get("w-2:0." + box), given.get("w-2:1." + box)
@@ -312,6 +328,26 @@ def limit_facts(year, given, res):
     vals = res.get("values", {})
     s3_demanded = "1040_s3.1" in vals or any(u.startswith("1040_s3.") for u in res.get("unimpl", []))
     out.append({"name": "foreign tax above the Form 1116 election threshold", "exceeded": bool(ft > lim + 0.005 and (s3_demanded or "1040.20" in vals))})
+    # HSA: own plus employer contributions against the year's limit (self-only / family, + 1,000 from age 55)
+    HSA = {2021: (3600.0, 7200.0), 2022: (3650.0, 7300.0), 2023: (3850.0, 7750.0)}
+    over = False
+    for who in ("you", "spouse"):
+        f = "8889:%s" % who
+        if (f + ".hsa_contributions") not in given:
+            continue
+        try:
+            own = float(given.get(f + ".hsa_contributions") or 0)
+            emp = float(given.get(f + ".employer_contribution") or 0)
+        except ValueError:
+            continue
+        yes = lambda k: str(given.get(k, "")).strip().lower() in ("yes", "y", "true", "1", "on")
+        lim = HSA[year][1 if yes(f + ".hdhp_plan_family") else 0]
+        if (f + ".age_under_55") in given and not yes(f + ".age_under_55"):
+            lim += 1000.0
+        took_part = (f + ".hsa_deduction") in vals or (f + ".13") in vals
+        if took_part and own + emp > lim + 0.005:
+            over = True
+    out.append({"name": "an HSA contribution (own plus employer) above the limit", "exceeded": over})
     for t in ("1099-int", "1099-div"):
         n = int(given.get("1040.number_" + t, "0") or 0)
         out.append({"name": "more %s payers than Schedule B has rows" % t, "exceeded": n > 14 and any(k.startswith("1040_sb.") for k in vals)})
@@ -529,12 +565,14 @@ def c09(tier):
                     p.n["1099-int"] = max(1, p.n["1099-int"])
                     ov = {"1099-int:0.box_6": "%.2f" % (601.0 + rep_k)}
                 else:
-                    p.sched1_adjust = True
+                    # own contributions within the limit, but not together with what the employer paid in
+                    p.sched1_adjust, p.hsa_you, p.hsa_spouse = True, True, False
+                    lim_self = {2021: 3600.0, 2022: 3650.0, 2023: 3850.0}[year]
+                    ov = {"8889:you.hdhp_plan_family": "no", "8889:you.age_under_55": "yes", "8889:you.hsa_full_year": "yes",
+                          "8889:you.employer_contribution": "%.2f" % (500.0 + 250.0 * rep_k),
+                          "8889:you.hsa_contributions": "%.2f" % (lim_self - 100.0 - 10.0 * rep_k)}
                 tr, res, solver, ans = scenarios.solve_scenario(year, ["1040"], p, rng, overrides=ov, snap="none")
                 given = ans.given
-                lims = limit_facts(year, given, res)
-                if kind == "hsa":
-                    continue
                 add(tr, res, year, {"kind": "limit-" + kind, "year": year, "request": ["1040"], "given": dict(given)}, given)
     # the foreign-tax threshold depends on the filing status (600 on a joint return, 300 otherwise): plain returns of every
     # status with foreign tax just below, between and just above the two amounts
